@@ -262,6 +262,16 @@ impl Lintable for Expression
 				right.lint(linter);
 			}
 			Expression::Unary {
+				op: UnaryOp::Negative,
+				expression,
+				location: _,
+				location_of_op: _,
+			} if is_magnitude_of_minimum(expression) =>
+			{
+				// The minimum of a signed type, such as -0x80i8, is in range
+				// although its magnitude on its own is not.
+			}
+			Expression::Unary {
 				op: _,
 				expression,
 				location: _,
@@ -407,6 +417,22 @@ impl Lintable for Expression
 			}
 			Expression::Poison(_) => (),
 		}
+	}
+}
+
+/// Whether this is a literal that, when negated, is exactly the least value
+/// of its signed type.
+fn is_magnitude_of_minimum(expression: &Expression) -> bool
+{
+	match expression
+	{
+		Expression::BitIntegerLiteral {
+			value,
+			value_type: Some(Ok(value_type)),
+			location: _,
+		} => value_type.is_signed()
+			&& *value == value_type.min_i128().unsigned_abs(),
+		_ => false,
 	}
 }
 
